@@ -57,6 +57,7 @@ type c14Case struct {
 	Cancelled bool   // forward: request context already cancelled
 	Timeout   string `json:",omitempty"` // forward: GRPC-Timeout header of the request (e.g. "1n": the handler's own deadline passes, the request lives on)
 	OKErr     bool   `json:",omitempty"` // forward: the handler returns a non-nil error whose gRPC status says OK
+	Wrapped   bool   `json:",omitempty"` // forward: the handler adds context to its status error with %w
 	Renderer  string // "default" | "nothing" | "teapot" | "option-default"
 	Carrier   string // "server" | "mux"
 	HTTP      int    // fallback: HTTP status
@@ -106,8 +107,17 @@ func c14Forward(c c14Case, o *Outcome) *Outcome {
 		if c.Code == 0 {
 			return &pb.Message{Count: 7}, nil
 		}
+		if c.Wrapped {
+			return nil, fmt.Errorf("lookup failed: %w", status.Error(codes.Code(c.Code), c.Msg))
+		}
 		return nil, status.Error(codes.Code(c.Code), c.Msg)
 	}}
+	wantMsg := c.Msg
+	if c.Wrapped && c.Code != 0 {
+		// the status package looks through %w: code of the wrapped status, text of the whole chain
+		o.class("forward/wrapped-status")
+		wantMsg = "lookup failed: " + status.Error(codes.Code(c.Code), c.Msg).Error()
+	}
 	var h http.Handler
 	hopts := c14Renderer(c.Renderer)
 	if c.Carrier == "mux" {
@@ -210,8 +220,8 @@ func c14Forward(c c14Case, o *Outcome) *Outcome {
 			return o.failf("OK response lost: %v", out)
 		}
 		if c.Code != 0 {
-			if st, _ := status.FromError(err); st.Message() != c.Msg {
-				return o.failf("message %q became %q", c.Msg, st.Message())
+			if st, _ := status.FromError(err); st.Message() != wantMsg {
+				return o.failf("message %q became %q", wantMsg, st.Message())
 			}
 		}
 	}
@@ -473,7 +483,8 @@ func genC14(t *rapid.T) c14Case {
 		Cancelled: rapid.Bool().Draw(t, "cancelled"),
 		Renderer:  rapid.SampledFrom([]string{"default", "nothing", "teapot", "option-default"}).Draw(t, "renderer"),
 		Carrier:   rapid.SampledFrom([]string{"server", "mux"}).Draw(t, "carrier"),
-		Timeout:   rapid.SampledFrom([]string{"", "", "1n", "0m", "1H"}).Draw(t, "timeout")}
+		Timeout:   rapid.SampledFrom([]string{"", "", "1n", "0m", "1H"}).Draw(t, "timeout"),
+		Wrapped:   rapid.IntRange(0, 3).Draw(t, "wrapped") == 0}
 }
 
 func init() { registerReplay("C14", propC14) }
